@@ -1,5 +1,6 @@
 #![allow(dead_code, unused_imports)]
 //! Correspondence harness for the Lean model of image-png (see /verif/DESIGN.md, section 5).
+mod alloc;
 mod canon;
 mod corpus;
 mod iowrap;
@@ -15,6 +16,9 @@ mod watchdog;
 
 use json::J;
 use report::{Ctx, Report, Tier};
+
+#[global_allocator]
+static GLOBAL: alloc::Counting = alloc::Counting;
 
 fn usage() -> ! {
     eprintln!("usage: pngharness <property> [--tier quick|thorough] [--seed N] --out <result.json> [--replay <file>]");
